@@ -47,6 +47,7 @@ L1_KINDS = ["none", "scalar", "per-row"]
 M = Monitor(
     pid="C16",
     setup=_setup,
+    decoy=True,
     title="Barycentric and n-sphere coordinate transforms are exact mutual inverses",
     rule=("cases: barycentric dimension n and n-sphere dimension enumerated 2..12 by the case index; point sets of "
           "1..10^4 rows (n_points x ndim arrays, C and Fortran layout) of one class each: generic, origin, on an axis, "
